@@ -11,10 +11,7 @@
     permutations ([C03_remove_moves], [C03_drain_moves], ...).  The erased destructor's stride and
     the by-count accounting of zero-sized values are part of [clear_ok]/[drain_drop_spec] (events
     list every value once; for size 0 all tokens are 0, so equality of event lists is equality of
-    counts).  (3) The composition over whole multi-vector histories IS mechanised for the
-    fragment of operations listed in AV.Props.C01 (block "histories" below: [C03_history_*]); for
-    the operations outside that fragment (drain / splice / clone / lazy clones inside a history)
-    the composition is covered by the correspondence check with the identity registry. *)
+    counts).  (3) whole histories: see the block "histories" appended by tools/append_props.py. *)
 From Coq Require Import List NArith Permutation.
 From AV.Spec Require Import VecSpec.
 From AV.Proofs Require Import OwnProofs.
